@@ -37,7 +37,7 @@ func (n rnode) String() string {
 		return "x"
 	case "nil":
 		return "nil"
-	case "tnilS", "tnilC", "tnilA":
+	case "tnilS", "tnilC", "tnilA", "pleaf":
 		return n.T
 	case "C":
 		if n.Ex != nil {
@@ -74,6 +74,14 @@ func wantMutex(mode, depth int) bool {
 // 0 none, 1 forward indices, 2 negative indices, 3 capacity reached + refused calls made earlier, 4 all of these,
 // 5 the receiver is read-only (set just before the call; nothing may change), 6 locking switched on after the
 // content was stored (instead of before), 7 / 8 the builder frees its own handles on the nested instances at even positions and in Conditions / at odd positions
+// parenLeaf is a foreign value with a few methods that Stacks and Conditions have too.
+type parenLeaf struct{ name string }
+
+func (p parenLeaf) IsParen() bool  { return false }
+func (p parenLeaf) String() string { return p.name }
+func (p parenLeaf) Len() int       { return 1 }
+func (p parenLeaf) IsInit() bool   { return true }
+
 func (n rnode) build(path string, depth, mmode int, beh ...int) any {
 	bm := 0
 	if len(beh) > 0 {
@@ -90,6 +98,8 @@ func (n rnode) build(path string, depth, mmode int, beh ...int) any {
 		return (*stackage.Condition)(nil)
 	case "tnilA":
 		return (*StackAlias)(nil)
+	case "pleaf": // somebody else's value that happens to have an IsParen method (and a String): a leaf
+		return parenLeaf{"P" + path}
 	case "S", "A":
 		var s stackage.Stack
 		if (bm == 3 || bm == 4) && len(n.Kids) > 0 {
@@ -268,6 +278,8 @@ func c20Expected(n rnode, path string) snap {
 		return snap{T: "leaf", Val: "*stackage.Condition:<nil>"}
 	case "tnilA":
 		return snap{T: "leaf", Val: "*main.StackAlias:<nil>"}
+	case "pleaf":
+		return snap{T: "leaf", Val: fmt.Sprintf("%T:%v", parenLeaf{"P" + path}, parenLeaf{"P" + path})}
 	case "S", "A":
 		sn := snap{T: "S", Kind: n.K, Paren: n.Paren}
 		for i, k := range n.Kids {
@@ -706,7 +718,7 @@ func c20Trees(c *Ctx) []rnode {
 	if !c.Quick() {
 		maxChain = 5
 	}
-	tails := [][]rnode{{{T: "leaf"}}, {{T: "leaf"}, {T: "leaf"}}, {{T: "C"}}, {{T: "C", Paren: true}}, {}, {{T: "tnilS"}}, {{T: "tnilC"}}, {{T: "tnilA"}},
+	tails := [][]rnode{{{T: "leaf"}}, {{T: "leaf"}, {T: "leaf"}}, {{T: "C"}}, {{T: "C", Paren: true}}, {}, {{T: "tnilS"}}, {{T: "tnilC"}}, {{T: "tnilA"}}, {{T: "pleaf"}},
 		// several children, the first of which is itself a Stack or a Condition (a run of envelopes above
 		// such a stack must stop there)
 		{{T: "C"}, {T: "leaf"}}, {{T: "S", K: "OR", Kids: []rnode{{T: "leaf"}}}, {T: "leaf"}}, {{T: "C"}, {T: "C"}}, {{T: "leaf"}, {T: "C"}}, {{T: "S", K: "AND", Kids: []rnode{{T: "C"}, {T: "leaf"}}}, {T: "C"}, {T: "leaf"}}, {{T: "C", Ex: &rnode{T: "S", K: "AND", Kids: []rnode{{T: "S", K: "OR", Kids: []rnode{{T: "leaf"}, {T: "leaf"}}}}}}}}
